@@ -216,6 +216,12 @@ func c13Life(c *mon.Ctx, r *mon.Rand) {
 			hostTag, _ = os.Hostname()
 		}
 	}
+	if !opts.IncludeHost && r.Chance(1, 6) {
+		// a "host" common tag configured by the application itself, without the
+		// IncludeHost option: a common tag like any other
+		common["host"] = "host-from-common-tags"
+		c.Class("lifetimes-with-a-configured-host-tag-and-IncludeHost-off", 1)
+	}
 	m3ViaConfiguration = r.Chance(1, 6)
 	defer func() { m3ViaConfiguration = false }()
 	// every fifth lifetime has one more destination that is a dead port (send
@@ -245,6 +251,14 @@ func c13Life(c *mon.Ctx, r *mon.Rand) {
 		}
 		nIdents = n
 		c.Class("lifetimes-with-more-than-4096-distinct-tag-sets", 1)
+	}
+	// every eighth lifetime: a small packet limit and one identity whose name
+	// alone is longer than a packet - it travels alone, but it travels
+	if !manyTagSets && r.Chance(1, 8) {
+		opts.MaxPacketSizeBytes = int32(r.Range(1500, 2500))
+		idents = append(idents, m3Ident{Kind: "counter", Name: strings.Repeat("L", 3000), Tags: map[string]string{"big": "1"}})
+		nIdents++
+		c.Class("lifetimes-with-a-metric-larger-than-a-packet", 1)
 	}
 	desc := map[string]interface{}{"protocol": protoName(proto), "sinks": nSinks, "queue": opts.MaxQueueSize, "max_packet": opts.MaxPacketSizeBytes,
 		"dead_destination_first": deadDest, "more_than_4096_tag_sets": manyTagSets, "common_tags": len(common), "include_host": opts.IncludeHost, "via_configuration": m3ViaConfiguration, "producers": nProd, "identities": nIdents, "calls_per_producer": perProd, "bucket_tag_names": idName + "/" + bName}
